@@ -69,6 +69,8 @@ def harnesses(tier):
     for a, b in ((1, 6), (6, 2), (2, 6)):
         hs.append({"id": "cigar/nocg-%d-%d" % (a, b), "params": {"tp": ["P", "P"], "names": ["a", "b"], "cigar": True, "cigars": [a, b]}, "timeout": 200})
     hs.append({"id": "cigar/nocg3", "params": {"tp": ["P", "S", "-"], "names": ["a", "a", "b"], "cigar": True, "cigars": [4, 1, 6]}, "timeout": 300})
+    hs.append({"id": "twice/PP-then-P", "params": {"tp": ["P", "P", "P"], "names": ["a", "b", "a"], "cigar": True, "cigars": [1, 2, 4], "twice": True},
+               "timeout": 300})
     hs.append({"id": "cigar/secondary", "params": {"tp": ["S", "P"], "names": ["a", "a"], "cigar": True, "cigars": [2, 4]}, "timeout": 200})
     return hs
 
@@ -76,13 +78,18 @@ def harnesses(tier):
 def is_primary_of(tp):
     """classification by the real parser"""
     GA = M["GA"]
-    line = "x\t10\t0\t5\t+\t>s1\t100\t0\t50\t5\t5\t60" + TP[tp] + "\tcg:Z:5=\n"
+    # a ds:Z tag (documented as dropped) and another tag precede the tp tag
+    line = "x\t10\t0\t5\t+\t>s1\t100\t0\t50\t5\t5\t60\tNM:i:-1\tds:Z::2*ag:3" + TP[tp] + "\tcg:Z:5=\n"
     e = stubs.env()
     e.files["probe.gaf"] = stubs.MFile("text", [line], None)
     g = GA.GAF("probe.gaf")
     al = next(iter(g.read_file()))
     g.close()
+    CIGAR_OK[0] = CIGAR_OK[0] and al.cigar == "5="
     return al.is_primary
+
+
+CIGAR_OK = [True]
 
 
 def oracle(n, names, prim, mq, qs, qe, rm, cigars, frac):
@@ -136,7 +143,10 @@ def build(params):
         qs = [a[4 * i + 1] for i in range(n)]
         qe = [a[4 * i + 2] for i in range(n)]
         rm = [a[4 * i + 3] for i in range(n)]
+        CIGAR_OK[0] = True
         prim = [is_primary_of(t) for t in tps]
+        if params.get("cigar") and not CIGAR_OK[0]:
+            return "the cg:Z: field that follows a ds:Z tag is not parsed: its runs are missing from the --cigar counts"
         # the statement's definition: primary iff tp:A is P (or absent, i.e. not marked secondary)
         want_prim = [t in ("P", "p", "-") for t in tps]
         e = stubs.env()
@@ -145,6 +155,10 @@ def build(params):
             recs.append((i, (lambda i=i: GA.Alignment(names[i], QL[i], qs[i], qe[i], "+", ">s1", 100, 0, 50, rm[i], BL[i], mq[i],
                                                         prim[i], cig[i], tags={}))))
         e.gaf_records["x.gaf"] = recs
+        if params.get("twice"):
+            # an earlier run_stat call in the same process (other file) must not influence this report
+            e.gaf_records["w.gaf"] = list(reversed(recs[:2]))
+            S.run_stat("w.gaf", cigar_stat=True, output="w.txt")
         S.run_stat("x.gaf", cigar_stat=bool(params.get("cigar")), output="o.txt")
         w = e.files["o.txt"].w
         d = {}
@@ -203,13 +217,17 @@ def replay(params, model, wd):
     cig = [CIGARS[i] for i in params["cigars"]] if params.get("cigar") else ["5="] * n
     lines = []
     for i in range(n):
-        lines.append("%s\t%d\t%d\t%d\t+\t>s1\t100\t0\t50\t%d\t%d\t%d%s%s" % (names[i], QL[i], qs[i], qe[i], rm[i], BL[i], mq[i], TP[tps[i]],
+        lines.append("%s\t%d\t%d\t%d\t+\t>s1\t100\t0\t50\t%d\t%d\t%d\tNM:i:-1\tds:Z::2*ag:3%s%s" % (names[i], QL[i], qs[i], qe[i], rm[i], BL[i], mq[i], TP[tps[i]],
                                                                               ("\tcg:Z:" + cig[i]) if cig[i] else ""))
     gaf = os.path.join(wd, "x.gaf")
     open(gaf, "w").write("".join(l + "\n" for l in lines))
     out = os.path.join(wd, "o.txt")
     err = None
     try:
+        if params.get("twice"):
+            w = os.path.join(wd, "w.gaf")
+            open(w, "w").write("".join(l + "\n" for l in reversed(lines[:2])))
+            S.run_stat(w, cigar_stat=True, output=os.path.join(wd, "w.txt"))
         S.run_stat(gaf, cigar_stat=bool(params.get("cigar")), output=out)
     except BaseException as e:  # noqa
         err = "%s: %s" % (type(e).__name__, e)
